@@ -352,14 +352,35 @@ where
         let point_word = (point >> (State::BITS - Word::BITS)).as_();
         self.bulk.write(point_word)?;
 
-        let upper_word = (self.state.lower.wrapping_add(&self.state.range.get())
-            >> (State::BITS - Word::BITS))
-            .as_();
-        if upper_word == point_word {
+        for _ in 0..self.num_trailing_zero_seal_words(point) {
             self.bulk.write(Word::zero())?;
         }
 
         Ok(())
+    }
+
+    /// Returns the number of zero words that have to follow the most significant word of
+    /// `point` so that the emitted words identify a number within the current range no
+    /// matter what they get concatenated with (at most one word if `State` holds exactly
+    /// two `Word`s).
+    fn num_trailing_zero_seal_words(&self, point: State) -> usize {
+        // `truncated_point` is what the decoder reads if the emitted words are followed by
+        // only zero bits. It satisfies `lower <= truncated_point <= point`.
+        let truncated_point = (point >> (State::BITS - Word::BITS)) << (State::BITS - Word::BITS);
+        let offset = truncated_point.wrapping_sub(&self.state.lower);
+
+        // If we emit `i` words in total, then arbitrary trailing data can increase the number
+        // that the decoder reads by up to (but not including) `1 << (State::BITS - i * Word::BITS)`.
+        // This cannot overflow since `offset < 1 << (State::BITS - Word::BITS)`; and it
+        // terminates at the latest when `shift == 0` since `offset < range`.
+        let mut num_zero_words = 0;
+        let mut shift = State::BITS - Word::BITS;
+        while offset + (State::one() << shift) > self.state.range.get() {
+            num_zero_words += 1;
+            shift -= Word::BITS;
+        }
+
+        num_zero_words
     }
 
     fn num_seal_words(&self) -> usize {
@@ -371,11 +392,7 @@ where
             .state
             .lower
             .wrapping_add(&((State::one() << (State::BITS - Word::BITS)) - State::one()));
-        let point_word = (point >> (State::BITS - Word::BITS)).as_();
-        let upper_word = (self.state.lower.wrapping_add(&self.state.range.get())
-            >> (State::BITS - Word::BITS))
-            .as_();
-        let mut count = if upper_word == point_word { 2 } else { 1 };
+        let mut count = 1 + self.num_trailing_zero_seal_words(point);
 
         if let EncoderSituation::Inverted(num_inverted, _) = self.situation {
             count += num_inverted.get();
